@@ -1832,6 +1832,24 @@ Proof.
   vm_compute. split; [discriminate|auto].
 Qed.
 
+(* F72, the deprecated pair with the roster arriving late: a forged description of an awaited
+   tree is queued, the genuine tree arrives, then the roster of the forged one. The current code
+   ([only 71]) skips the queued description (its tree is present); without F72 it replaces the
+   genuine tree and the run that needs it is dropped. *)
+Definition late_roster_ops : list op :=
+  [ping 1 2 12 1;
+   Recv 3 false false (MTreeMarshal (mkTMar 2 5 [TM 3 3 []]));
+   Recv 1 false false (MRespTree (Some tm2) (Some roG));
+   Recv 3 false false (MRoster roH)].
+
+Lemma late_roster_keeps_tree :
+  lookup 2 (store (run (only 71) init late_roster_ops)) = Some (Have T2) /\
+  delivered (kx 2 91) (r_events (step (only 71) (run (only 71) init late_roster_ops) (ping 1 2 91 1))) = true /\
+  ptm (run (only 71) init late_roster_ops) = [] /\
+  lookup 2 (store (run (only 72) init late_roster_ops)) <> Some (Have T2) /\
+  delivered (kx 2 91) (r_events (step (only 72) (run (only 72) init late_roster_ops) (ping 1 2 91 1))) = false.
+Proof. vm_compute. repeat split; auto. discriminate. Qed.
+
 (* F73 (recorded, not repaired): the first answer to a pending tree request wins, whatever it
    contains; the root's answer is then ignored and the run that parked its message is dropped *)
 Lemma f73_forged_requested_tree :
